@@ -1,5 +1,6 @@
 import BrushVerif.Drv.FlowWire
 import BrushVerif.Model.Traps
+import BrushVerif.Drv.C16E
 /-! Driver for C16: `C16 <hasTrap 0|1> <execReplaced 0|1> <program wire>`; with `hasTrap` the LAST
 function of the program is the EXIT handler's body. Response: `<status> <trace>`. -/
 namespace BrushVerif.Drv.C16
@@ -27,6 +28,7 @@ def ownTrap (fs : List Cmd) (main : Cmd) (spec : Bool) : Str :=
 
 def handle (toks : List Str) : Str :=
   match toks with
+  | ['e', 'r', 'r', 'f', 'i', 'r', 'e'] :: rest => BrushVerif.Drv.C16E.handle rest
   | ['S'] :: rest =>
     match pProg rest with
     | none => "bad-program".toList
